@@ -392,7 +392,7 @@ func run(c *hl.Ctx) {
 		checkBooleanBytes(c)
 	}
 	// family history (history.go): small, so it runs first
-	idx = runHistory(c, idx)
+	idx = runHistory(c, idx, 0, 4)
 	// simplest first across profiles: interleave by node count
 	maxN := 0
 	for _, p := range api {
@@ -487,6 +487,9 @@ func run(c *hl.Ctx) {
 		}
 	}
 	c.Info("bytes_wire_trees_enumerated", widx)
+	if c.Thorough() && !c.Expired() {
+		runHistory(c, idx, 5, 5)
+	}
 }
 
 func replay(c *hl.Ctx, raw json.RawMessage) {
